@@ -88,7 +88,7 @@ static inline cbor_item_t *mk_def_bytestring(void) {
   size_t n = nondet_size();
   __CPROVER_assume(n <= VERIF_MAXOBJ);
   it->metadata.bytestring_metadata.length = n;
-  it->data = (n == 0 && nondet_bool()) ? NULL : mk_block(n);
+  it->data = mk_block(n); /* decoded / built strings always own a buffer, also of length 0 (see DESIGN 11.5: handle-less fresh items) */
   return it;
 }
 
@@ -99,7 +99,7 @@ static inline cbor_item_t *mk_def_string(void) {
   size_t n = nondet_size();
   __CPROVER_assume(n <= VERIF_MAXOBJ);
   it->metadata.string_metadata.length = n;
-  it->data = (n == 0 && nondet_bool()) ? NULL : mk_block(n);
+  it->data = mk_block(n); /* decoded / built strings always own a buffer, also of length 0 (see DESIGN 11.5: handle-less fresh items) */
   return it;
 }
 
